@@ -127,3 +127,13 @@ impl From<WriteStartCodePreset> for StartCodePreset {
         }
     }
 }
+
+/// Verification hook: overrides the read chunk size from the environment.
+#[cfg(dovi_tool_verif)]
+pub(crate) fn verif_chunk_size(default: usize) -> usize {
+    std::env::var("DOVI_TOOL_VERIF_CHUNK_SIZE")
+        .ok()
+        .and_then(|v| v.parse::<usize>().ok())
+        .filter(|v| *v > 0)
+        .unwrap_or(default)
+}
